@@ -73,6 +73,10 @@ type introspectionVisitor struct {
 
 func (i *introspectionVisitor) EnterDocument(operation, definition *ast.Document) {
 	i.data.Schema = NewSchema()
+	// a Generator can be used for more than one schema: forget the root operation types of the previous one
+	i.queryTypeName = ""
+	i.mutationTypeName = ""
+	i.subscriptionTypeName = ""
 }
 
 func (i *introspectionVisitor) LeaveDocument(operation, definition *ast.Document) {
